@@ -166,8 +166,8 @@ func c13Seeds() []c13Seed {
 				}
 				out = append(out, s)
 			}
-			out = append(out, c13Seed{Handler: kind, BodyKind: "xml", NeedsXML: true, Req: harness.Req{Method: "REPORT", Path: p, Header: with(xmlH(), "Depth", "1"), Body: query}})
-			out = append(out, c13Seed{Handler: kind, BodyKind: "xml", NeedsXML: true, Req: harness.Req{Method: "REPORT", Path: p, Header: with(xmlH(), "Depth", "1"), Body: multiget}})
+			out = append(out, c13Seed{Handler: kind, BodyKind: "xml", NeedsXML: true, Depth: true, Req: harness.Req{Method: "REPORT", Path: p, Header: with(xmlH(), "Depth", "1"), Body: query}})
+			out = append(out, c13Seed{Handler: kind, BodyKind: "xml", NeedsXML: true, Depth: true, Req: harness.Req{Method: "REPORT", Path: p, Header: with(xmlH(), "Depth", "1"), Body: multiget}})
 			out = append(out, c13Seed{Handler: kind, BodyKind: "xml", NeedsXML: true, Req: harness.Req{Method: "PROPPATCH", Path: p, Header: xmlH(), Body: c13Proppatch}})
 			for _, m := range []string{"COPY", "MOVE"} {
 				out = append(out, c13Seed{Handler: kind, Depth: true, Overwrite: true, Dest: true, Req: harness.Req{Method: m, Path: p, Header: map[string]string{"Destination": p + "x", "Overwrite": "T", "Depth": "infinity"}}})
@@ -179,19 +179,19 @@ func c13Seeds() []c13Seed {
 		q := `<?xml version="1.0"?><C:calendar-query xmlns:D="DAV:" xmlns:C="urn:ietf:params:xml:ns:caldav"><D:prop><D:getetag/>` + cd + `</D:prop><C:filter><C:comp-filter name="VCALENDAR"/></C:filter></C:calendar-query>`
 		m := `<?xml version="1.0"?><C:calendar-multiget xmlns:D="DAV:" xmlns:C="urn:ietf:params:xml:ns:caldav"><D:prop><D:getetag/>` + cd + `</D:prop><D:href>/u/c/k1/o1.ics</D:href></C:calendar-multiget>`
 		for _, b := range []string{q, m} {
-			out = append(out, c13Seed{Handler: "caldav", BodyKind: "xml", NeedsXML: true, Req: harness.Req{Method: "REPORT", Path: "/u/c/k1/", Header: with(xmlH(), "Depth", "1"), Body: b}})
+			out = append(out, c13Seed{Handler: "caldav", BodyKind: "xml", NeedsXML: true, Depth: true, Req: harness.Req{Method: "REPORT", Path: "/u/c/k1/", Header: with(xmlH(), "Depth", "1"), Body: b}})
 		}
 	}
 	for _, ad := range []string{`<C:address-data><C:allprop/></C:address-data>`, `<C:address-data/>`, ``} {
 		q := `<?xml version="1.0"?><C:addressbook-query xmlns:D="DAV:" xmlns:C="urn:ietf:params:xml:ns:carddav"><D:prop><D:getetag/>` + ad + `</D:prop><C:filter><C:prop-filter name="FN"/></C:filter></C:addressbook-query>`
-		out = append(out, c13Seed{Handler: "carddav", BodyKind: "xml", NeedsXML: true, Req: harness.Req{Method: "REPORT", Path: "/u/c/k1/", Header: with(xmlH(), "Depth", "1"), Body: q}})
+		out = append(out, c13Seed{Handler: "carddav", BodyKind: "xml", NeedsXML: true, Depth: true, Req: harness.Req{Method: "REPORT", Path: "/u/c/k1/", Header: with(xmlH(), "Depth", "1"), Body: q}})
 	}
 	// the reports under the other Depth values (a Depth-dependent shortcut must not skip validation)
 	for _, d := range []string{"0", "infinity"} {
-		out = append(out, c13Seed{Handler: "caldav", BodyKind: "xml", NeedsXML: true, Req: harness.Req{Method: "REPORT", Path: "/u/c/k1/", Header: with(xmlH(), "Depth", d), Body: c13CalQuery}})
-		out = append(out, c13Seed{Handler: "caldav", BodyKind: "xml", NeedsXML: true, Req: harness.Req{Method: "REPORT", Path: "/u/c/k1/", Header: with(xmlH(), "Depth", d), Body: c13CalMultiget}})
-		out = append(out, c13Seed{Handler: "carddav", BodyKind: "xml", NeedsXML: true, Req: harness.Req{Method: "REPORT", Path: "/u/c/k1/", Header: with(xmlH(), "Depth", d), Body: c13CardQuery}})
-		out = append(out, c13Seed{Handler: "carddav", BodyKind: "xml", NeedsXML: true, Req: harness.Req{Method: "REPORT", Path: "/u/c/k1/", Header: with(xmlH(), "Depth", d), Body: c13CardMultiget}})
+		out = append(out, c13Seed{Handler: "caldav", BodyKind: "xml", NeedsXML: true, Depth: true, Req: harness.Req{Method: "REPORT", Path: "/u/c/k1/", Header: with(xmlH(), "Depth", d), Body: c13CalQuery}})
+		out = append(out, c13Seed{Handler: "caldav", BodyKind: "xml", NeedsXML: true, Depth: true, Req: harness.Req{Method: "REPORT", Path: "/u/c/k1/", Header: with(xmlH(), "Depth", d), Body: c13CalMultiget}})
+		out = append(out, c13Seed{Handler: "carddav", BodyKind: "xml", NeedsXML: true, Depth: true, Req: harness.Req{Method: "REPORT", Path: "/u/c/k1/", Header: with(xmlH(), "Depth", d), Body: c13CardQuery}})
+		out = append(out, c13Seed{Handler: "carddav", BodyKind: "xml", NeedsXML: true, Depth: true, Req: harness.Req{Method: "REPORT", Path: "/u/c/k1/", Header: with(xmlH(), "Depth", d), Body: c13CardMultiget}})
 	}
 	// requests that report NO resource (an empty collection, a multiget of missing members, somebody else's
 	// principal, a level below an object): validation must not hang on the first reported resource
@@ -200,8 +200,8 @@ func c13Seeds() []c13Seed {
 		if kind == "carddav" {
 			query, multiget, ext = c13CardQuery, c13CardMultiget, ".vcf"
 		}
-		out = append(out, c13Seed{Handler: kind, BodyKind: "xml", NeedsXML: true, Req: harness.Req{Method: "REPORT", Path: "/u/c/k2", Header: with(xmlH(), "Depth", "1"), Body: query}})
-		out = append(out, c13Seed{Handler: kind, BodyKind: "xml", NeedsXML: true, Req: harness.Req{Method: "REPORT", Path: "/u/c/k2", Header: with(xmlH(), "Depth", "1"), Body: strings.ReplaceAll(multiget, "/u/c/k1/o1"+ext, "/u/c/k2/nothing-here"+ext)}})
+		out = append(out, c13Seed{Handler: kind, BodyKind: "xml", NeedsXML: true, Depth: true, Req: harness.Req{Method: "REPORT", Path: "/u/c/k2", Header: with(xmlH(), "Depth", "1"), Body: query}})
+		out = append(out, c13Seed{Handler: kind, BodyKind: "xml", NeedsXML: true, Depth: true, Req: harness.Req{Method: "REPORT", Path: "/u/c/k2", Header: with(xmlH(), "Depth", "1"), Body: strings.ReplaceAll(multiget, "/u/c/k1/o1"+ext, "/u/c/k2/nothing-here"+ext)}})
 		for _, p := range []string{"/v/", "/u/c/k1/o1" + ext + "/x/y"} {
 			for _, b := range []string{pfAllprop, pfProp} {
 				out = append(out, c13Seed{Handler: kind, Depth: true, BodyKind: "xml", Req: harness.Req{Method: "PROPFIND", Path: p, Body: b, Header: map[string]string{"Depth": "0", "Content-Type": "application/xml"}}})
@@ -209,19 +209,19 @@ func c13Seeds() []c13Seed {
 		}
 	}
 	// a multiget that names no resource at all
-	out = append(out, c13Seed{Handler: "caldav", BodyKind: "xml", NeedsXML: true, Req: harness.Req{Method: "REPORT", Path: "/u/c/k1/", Header: with(xmlH(), "Depth", "1"),
+	out = append(out, c13Seed{Handler: "caldav", BodyKind: "xml", NeedsXML: true, Depth: true, Req: harness.Req{Method: "REPORT", Path: "/u/c/k1/", Header: with(xmlH(), "Depth", "1"),
 		Body: `<?xml version="1.0"?><C:calendar-multiget xmlns:D="DAV:" xmlns:C="urn:ietf:params:xml:ns:caldav"><D:prop><D:getetag/><C:calendar-data><C:comp name="VCALENDAR"><C:allprop/><C:allcomp/></C:comp></C:calendar-data></D:prop></C:calendar-multiget>`}})
-	out = append(out, c13Seed{Handler: "carddav", BodyKind: "xml", NeedsXML: true, Req: harness.Req{Method: "REPORT", Path: "/u/c/k1/", Header: with(xmlH(), "Depth", "1"),
+	out = append(out, c13Seed{Handler: "carddav", BodyKind: "xml", NeedsXML: true, Depth: true, Req: harness.Req{Method: "REPORT", Path: "/u/c/k1/", Header: with(xmlH(), "Depth", "1"),
 		Body: `<?xml version="1.0"?><C:addressbook-multiget xmlns:D="DAV:" xmlns:C="urn:ietf:params:xml:ns:carddav"><D:prop><D:getetag/><C:address-data><C:prop name="FN"/></C:address-data></D:prop></C:addressbook-multiget>`}})
 	// a query that asks for no results at all (valid; the filter must still be a filter)
-	out = append(out, c13Seed{Handler: "carddav", BodyKind: "xml", NeedsXML: true, Req: harness.Req{Method: "REPORT", Path: "/u/c/k1/", Header: with(xmlH(), "Depth", "1"),
+	out = append(out, c13Seed{Handler: "carddav", BodyKind: "xml", NeedsXML: true, Depth: true, Req: harness.Req{Method: "REPORT", Path: "/u/c/k1/", Header: with(xmlH(), "Depth", "1"),
 		Body: strings.Replace(c13CardQuery, "<C:nresults>5</C:nresults>", "<C:nresults>0</C:nresults>", 1)}})
 	// principal helper
 	for _, m := range []string{"OPTIONS", "GET", "DELETE", "FOO", "REPORT"} {
 		out = append(out, c13Seed{Handler: "principal", Req: harness.Req{Method: m, Path: "/u/"}})
 	}
 	for _, b := range []string{"", pfAllprop, pfPropname, pfProp} {
-		s := c13Seed{Handler: "principal", Req: harness.Req{Method: "PROPFIND", Path: "/u/", Body: b, Header: map[string]string{"Depth": "0"}}}
+		s := c13Seed{Handler: "principal", Depth: true, Req: harness.Req{Method: "PROPFIND", Path: "/u/", Body: b, Header: map[string]string{"Depth": "0"}}}
 		if b != "" {
 			s.BodyKind = "xml"
 			s.Req.Header["Content-Type"] = "application/xml"
